@@ -44,10 +44,11 @@ const (
 	opIterLin
 	opTxnReadonlyNoCmp
 	opIterSer
+	opPutPlain
 	nOps
 )
 
-var opName = []string{"put", "delete-range", "txn(write)", "txn(empty-taken-branch)", "txn(read-only)", "range(linearizable)", "range(serializable)", "iterate(linearizable)", "txn(read-only,no-predicates)", "iterate(serializable)"}
+var opName = []string{"put", "delete-range", "txn(write)", "txn(empty-taken-branch)", "txn(read-only)", "range(linearizable)", "range(serializable)", "iterate(linearizable)", "txn(read-only,no-predicates)", "iterate(serializable)", "put(no prev_kv: stays in the plain apply batch)"}
 
 type prog struct {
 	Node int   `json:"node"`
@@ -414,6 +415,13 @@ func doOp(at *table.ActiveTable, ctx context.Context, op int, val string, before
 	switch op {
 	case opPut:
 		r, e := at.Put(ctx, &regattapb.PutRequest{Table: Table, Key: B("a"), Value: B(val), PrevKv: true})
+		err, mut = e, true
+		if e == nil {
+			rev = r.Header.GetRevision()
+			resp = fsmx.RespStr(&regattapb.ResponseOp{Response: &regattapb.ResponseOp_ResponsePut{ResponsePut: &regattapb.ResponseOp_Put{PrevKv: r.PrevKv}}})
+		}
+	case opPutPlain:
+		r, e := at.Put(ctx, &regattapb.PutRequest{Table: Table, Key: B("a"), Value: B(val)})
 		err, mut = e, true
 		if e == nil {
 			rev = r.Header.GetRevision()
